@@ -156,4 +156,17 @@ P['C10'] = dict(
     mismatch_meaning='the event sequence the application observed from a channel differs from the sequence every execution of the node model produces (open first, one event per input in order, close last): concrete input history',
 )
 
+P['C11'] = dict(
+    bin='scen', compare=cmp_scen,
+    rule='real Node over 1..5 custom endpoints; 1..3 submitter goroutines each issuing 3..17 calls drawn from the six Write* calls (messages and forwarded frames carrying a serial number; targets all / one / all-but-one, sometimes a channel of another node), with concurrent incoming traffic, GOMAXPROCS 1/2/16; total per channel below the queue size so nothing may be dropped; a FIFO marker per channel closes the observation. Per channel: every transport write must be exactly one frame; forwarded frames keep their header, originated messages carry the configured ids and per-link sequence numbers 0,1,2,..; the serial sequence on the wire is checked by the extracted acceptance predicate fan_ok (restricted to any submitter it equals that submitter\'s targeted submissions in order, and holds nothing else). Non-trivial: the predicate was evaluated on a non-empty wire.',
+    assumptions=['acceptance predicate fan_ok is the decidable form of C11_exactly_once + C11_wire_in_order when no queue overflows', 'scheduler perturbation is search'],
+    mismatch_meaning='a wire shows a lost, duplicated, reordered, foreign or torn item, or wrong header fields: concrete submission history',
+)
+P['C13'] = dict(
+    bin='scen', compare=cmp_scen,
+    rule='(a) 2..4 channels, one transport blocked in Write; 100..250 WriteMessageAll: every healthy channel must show all items in order (marker-terminated) and events must keep flowing; after release the stalled channel must show an ordered subsequence of at most 1+64 items (+marker). (b) transport Write failing at 1..3 random call positions: the wire must hold every other item, in order. (c) unencodable items (raw id outside the dialect; id > 255 on a V1 link) at random positions: every valid item must still reach the wire, sequence numbers gapless. Non-trivial: predicate evaluated on a non-empty wire.',
+    assumptions=['scheduler perturbation is search; the all-schedules claims are the LTS theorems'],
+    mismatch_meaning='a stalled or failing channel delayed others, exceeded its bounded backlog, reordered, or stayed open while discarding output: concrete write history',
+)
+
 KNOWN_MATCH = {'F12': match_f12}
